@@ -81,7 +81,22 @@ package object
 //@   ensures result1 == nil ==> result0 != nil && fresh(result0) && fresh(result0.store)
 //@   modifies nothing
 
+// C12: every supported Go value becomes the object of the same content
 //@ func NativeToObject
+//@   goal string: istype(val, string) ==> istype(result, *Str) && as(result, *Str).Value == as(val, string)
+//@   goal bool: istype(val, bool) ==> istype(result, *Bool) && as(result, *Bool).Value == as(val, bool)
+//@   goal int: istype(val, int) ==> istype(result, *Int) && as(result, *Int).Value == as(val, int)
+//@   goal int64: istype(val, int64) ==> istype(result, *Int) && as(result, *Int).Value == as(val, int64)
+//@   goal int8: istype(val, int8) ==> istype(result, *Int) && as(result, *Int).Value == as(val, int8)
+//@   goal int16: istype(val, int16) ==> istype(result, *Int) && as(result, *Int).Value == as(val, int16)
+//@   goal int32: istype(val, int32) ==> istype(result, *Int) && as(result, *Int).Value == as(val, int32)
+//@   goal uint8: istype(val, uint8) ==> istype(result, *Int) && as(result, *Int).Value == as(val, uint8)
+//@   goal uint16: istype(val, uint16) ==> istype(result, *Int) && as(result, *Int).Value == as(val, uint16)
+//@   goal uint32: istype(val, uint32) ==> istype(result, *Int) && as(result, *Int).Value == as(val, uint32)
+//@   goal uint-in-range: istype(val, uint) && as(val, uint) <= 9223372036854775807 ==> istype(result, *Int) && as(result, *Int).Value == as(val, uint)
+//@   goal uint64-in-range: istype(val, uint64) && as(val, uint64) <= 9223372036854775807 ==> istype(result, *Int) && as(result, *Int).Value == as(val, uint64)
+//@   goal float64: istype(val, float64) ==> istype(result, *Float) && same(as(result, *Float).Value, as(val, float64))
+//@   goal nil: val == nil ==> istype(result, *Nil)
 //@   ensures istype(val, string) || istype(val, bool) || istype(val, int) || istype(val, float64) ==> result != nil
 //@   modifies nothing
 //@ func nativeMapToObject
